@@ -1,6 +1,10 @@
 // C24 implementation driver: the same cases on the real occa::json (see extract/C24/driver.ml
 // for the case syntax).  One "R ..." line per case.
 #include <cmath>
+#include <csetjmp>
+#include <csignal>
+#include <sys/mman.h>
+#include <unistd.h>
 #include <cstdint>
 #include <cstring>
 #include <iostream>
@@ -305,25 +309,46 @@ static std::string doTree(const std::vector<std::string> &t) {
 
 #endif
 
+// The text is placed so that its terminating NUL is the last byte before an inaccessible page: a read
+// past the terminator (model: Oob) faults at once, and the handler turns it into the observation
+// "R OOB" instead of a sanitizer report that would end the process.
+static sigjmp_buf oobJump;
+static void onSegv(int) { siglongjmp(oobJump, 1); }
+
 static std::string doParse(const std::vector<std::string> &t) {
   if (t.size() > 2) throw Bad();
   const std::string text = t.size() == 2 ? unhex(t[1]) : std::string();
-  // an exact-size heap copy, so that a read past the terminating NUL is seen by ASan
-  char *buf = new char[text.size() + 1];
+  const size_t page = (size_t) sysconf(_SC_PAGESIZE);
+  const size_t pages = (text.size() + 1 + page - 1) / page;
+  char *area = (char*) mmap(NULL, (pages + 1) * page, PROT_READ | PROT_WRITE, MAP_PRIVATE | MAP_ANONYMOUS, -1, 0);
+  if (area == (char*) MAP_FAILED) throw Bad();
+  mprotect(area + pages * page, page, PROT_NONE);
+  char *buf = area + pages * page - (text.size() + 1);
   memcpy(buf, text.data(), text.size());
   buf[text.size()] = '\0';
+  struct sigaction sa, old;
+  memset(&sa, 0, sizeof sa);
+  sa.sa_handler = onSegv;
+  sigemptyset(&sa.sa_mask);
+  sigaction(SIGSEGV, &sa, &old);
   std::ostringstream o;
-  try {
-    const char *c = buf;
-    json j = json::parse(c);
-    o << "R tree=";
-    enc(o, j);
-    o << " off=" << (long) (c - buf);
-  } catch (occa::exception &e) {
+  if (sigsetjmp(oobJump, 1) == 0) {
+    try {
+      const char *c = buf;
+      json j = json::parse(c);
+      o << "R tree=";
+      enc(o, j);
+      o << " off=" << (long) (c - buf);
+    } catch (occa::exception &e) {
+      o.str("");
+      o << "R ERR";
+    }
+  } else {
     o.str("");
-    o << "R ERR";
+    o << "R OOB";
   }
-  delete[] buf;
+  sigaction(SIGSEGV, &old, NULL);
+  munmap(area, (pages + 1) * page);
   return o.str();
 }
 
